@@ -148,6 +148,17 @@ def run(ck):
         for cl in fails:
             ck.violation({"kind": e["kind"], "proc": e["proc"], "clause": cl, "shape": shape(e["f"]),
                           "exc": e["exc"].split(":")[0]}, {"event": e})
+    # (C') rule-level conformance: the outputs of the Tseitin CNFizer are the outputs of the rule model CnfM (Rewriters.tla)
+    # up to the order of clauses / literals and a bijection of the definitional variables' names
+    sel = [dict(e, proc="cnf") for e in evs if e["kind"] == "cnf" and e["res"] == "ok" and
+           e["proc"] in ("cnf", "cnf_as_set", "cnf_names_like_fresh", "cnf_as_set_names_like_fresh")]
+    dv, dst = tlc.validate_events("Trace_Rewr", sel, constants={"Seed": 0, "Cap": 8})
+    ck.add_tlc(dst)
+    bysel = {e["id"]: e for e in sel}
+    for i in sorted(dv)[:20]:
+        print("MODEL-DRIFT property=C11 the output of the CNFizer differs from the rule model CnfM on %s" % shape(bysel[i]["f"]))
+    ck.cov["drift"] += len(dv)
+    ck.part("rule_model_conformance_CnfM", pairs=len(sel), agree=len(sel) - len(dv), drift=len(dv))
     ck.part("corpus", QF=len(qf), UF=len(uf), used_QF=len(qf_s), used_UF=len(uf_s))
     for e in (evs[0], evs[len(evs) // 2], evs[-1]):
         ck.sample({k: e[k] for k in ("proc", "f", "out", "map")})
